@@ -6,7 +6,7 @@ from datetime import date, timedelta
 
 from harness.core import LeanDriver
 
-CODE = {"C": 0, "P": 1, "U": 2}
+CODE = {"C": 0, "P": 1, "U": 2, "?": 2}
 
 
 # ------------------------------------------------------------------------------------------------
